@@ -104,8 +104,8 @@ def r_offset(ctx):
             rep.instance("%s: (%s.tag, %s.tag_start)" % (inst, base_tag, base_off))
             rep.oblige(base_tag is not None and base_tag == base_off, "OFFSET|%s|pair|#%d" % (rn, bb if False else 0) + "|%s" % _site_desc(b, st), b.span,
                        "%s queues a tag with an offset that is not the tag_start of the same entry (tag from %s, offset from %s)" % (inst, base_tag, base_off))
-    if n < 5:
-        raise AnchorLost("R-OFFSET: only %d (tag, offset) constructions found, expected at least 5" % n)
+    if n < 3:
+        raise AnchorLost("R-OFFSET: only %d (tag, offset) constructions found, expected at least 3" % n)
     # the Full offset passed by read_next
     rn = find_one(prog, "TagIterator::read_next")
     calls = rn.calls_to(ITER + "::buffer_master")
